@@ -319,9 +319,133 @@ def c16_2(rep, ix, f, sh):
         rev = (a0, a1) == (c, p)
         verdict = True if fwd else (False if rev else None)
     if verdict is None:
+        # decided on a model wire: the body of the wire loop is interpreted over a list of three symbolic entries; the edges it draws must be
+        # (first, second), (second, third) - consecutive entries, earlier -> later
+        verdict = edge_model(gl[0], cm)
+    if verdict is None:
         raise Inconclusive("to_DiGraph: add_edge arguments `%s` in loop `%s` outside the idiom set" % (u(e), u(l.iter)))
     rep.check(verdict, R, ix.site(f, e), "every edge joins the index components of two consecutive entries of one wire list, earlier -> later (hence forward, acyclic, per-wire program order)",
               "got `%s` in loop `for %s in %s`" % (u(e), u(l.target), u(l.iter)), key="edge")
+
+
+class _Stop(Exception):
+    pass
+
+
+def edge_model(wire_loop, cm):
+    """interpret the body of `for ... cm ... in grid...:` on model wires of 3, 2 and 1 symbolic entries (own interpreter over the syntax tree, a
+    dozen statement / expression forms; anything else: undecided).  -> True (edges are exactly the consecutive pairs, forward) | False | None"""
+    def run(entries):
+        env = {cm: list(entries)}
+        nodes, edges = set(), []
+
+        def ev(e):
+            if isinstance(e, ast.Constant):
+                return e.value
+            if isinstance(e, ast.Name):
+                if e.id == "G":
+                    return nodes
+                if e.id in env:
+                    return env[e.id]
+                raise _Stop("name %s" % e.id)
+            if isinstance(e, (ast.Tuple, ast.List)):
+                return tuple(ev(x) for x in e.elts)
+            if isinstance(e, ast.Subscript):
+                b = ev(e.value)
+                if isinstance(e.slice, ast.Slice):
+                    lo = ev(e.slice.lower) if e.slice.lower is not None else None
+                    hi = ev(e.slice.upper) if e.slice.upper is not None else None
+                    if e.slice.step is not None:
+                        raise _Stop("step")
+                    return b[lo:hi]
+                return b[ev(e.slice)]
+            if isinstance(e, ast.BinOp) and isinstance(e.op, (ast.Add, ast.Sub)):
+                a, b = ev(e.left), ev(e.right)
+                return a + b if isinstance(e.op, ast.Add) else a - b
+            if isinstance(e, ast.UnaryOp) and isinstance(e.op, ast.Not):
+                return not ev(e.operand)
+            if isinstance(e, ast.UnaryOp) and isinstance(e.op, ast.USub):
+                return -ev(e.operand)
+            if isinstance(e, ast.BoolOp):
+                vals = [ev(x) for x in e.values]
+                return all(vals) if isinstance(e.op, ast.And) else any(vals)
+            if isinstance(e, ast.Compare) and len(e.ops) == 1:
+                a, b = ev(e.left), ev(e.comparators[0])
+                op = e.ops[0]
+                table = {ast.In: lambda: a in b, ast.NotIn: lambda: a not in b, ast.Eq: lambda: a == b, ast.NotEq: lambda: a != b, ast.Lt: lambda: a < b, ast.LtE: lambda: a <= b,
+                         ast.Gt: lambda: a > b, ast.GtE: lambda: a >= b, ast.Is: lambda: a is b, ast.IsNot: lambda: a is not b}
+                if type(op) in table:
+                    return table[type(op)]()
+            if isinstance(e, ast.Call):
+                fn_ = u(e.func)
+                if fn_ in ("len", "range", "iter", "next", "enumerate", "zip", "list", "tuple", "reversed") and not e.keywords:
+                    args = [ev(a) for a in e.args]
+                    if fn_ == "next":
+                        try:
+                            return next(*args)
+                        except StopIteration:
+                            raise _Stop("StopIteration")
+                    return {"len": len, "range": range, "iter": iter, "enumerate": enumerate, "zip": zip, "list": list, "tuple": tuple, "reversed": reversed}[fn_](*args)
+                if fn_ in ("pairwise", "itertools.pairwise") and len(e.args) == 1:
+                    x = list(ev(e.args[0]))
+                    return list(zip(x, x[1:]))
+                if fn_ in ("islice", "itertools.islice") and len(e.args) == 3:
+                    x = list(ev(e.args[0]))
+                    return x[ev(e.args[1]):ev(e.args[2])]
+            raise _Stop("expression %s" % u(e)[:40])
+
+        def bind(t, v):
+            if isinstance(t, ast.Name):
+                env[t.id] = v
+            elif isinstance(t, (ast.Tuple, ast.List)):
+                v = tuple(v)
+                if len(v) != len(t.elts):
+                    raise _Stop("unpack")
+                for a, b in zip(t.elts, v):
+                    bind(a, b)
+            else:
+                raise _Stop("target")
+
+        def run_block(stmts):
+            for s_ in stmts:
+                if isinstance(s_, ast.Assign) and len(s_.targets) == 1:
+                    bind(s_.targets[0], ev(s_.value))
+                elif isinstance(s_, ast.Expr) and isinstance(s_.value, ast.Call) and isinstance(s_.value.func, ast.Attribute) and u(s_.value.func.value) == "G":
+                    a = s_.value.func.attr
+                    if a == "add_node" and s_.value.args:
+                        nodes.add(ev(s_.value.args[0]))
+                    elif a == "add_edge" and len(s_.value.args) == 2:
+                        x, y = ev(s_.value.args[0]), ev(s_.value.args[1])
+                        nodes.update((x, y))
+                        edges.append((x, y))
+                    else:
+                        raise _Stop("graph call")
+                elif isinstance(s_, ast.If):
+                    run_block(s_.body if ev(s_.test) else s_.orelse)
+                elif isinstance(s_, ast.For):
+                    for item in ev(s_.iter):
+                        bind(s_.target, item)
+                        try:
+                            run_block(s_.body)
+                        except StopIteration:
+                            break
+                elif isinstance(s_, (ast.Pass,)) or (isinstance(s_, ast.Expr) and isinstance(s_.value, ast.Constant)):
+                    pass
+                elif isinstance(s_, ast.Continue):
+                    raise _Stop("continue")
+                else:
+                    raise _Stop("statement %s" % type(s_).__name__)
+        run_block(wire_loop.body)
+        return edges
+    try:
+        e3 = run([("n0", "c0"), ("n1", "c1"), ("n2", "c2")])
+        e2 = run([("n0", "c0"), ("n1", "c1")])
+        e1 = run([("n0", "c0")])
+    except (_Stop, IndexError, KeyError, TypeError, ValueError, AttributeError):
+        return None
+    if e3 == [("n0", "n1"), ("n1", "n2")] and e2 == [("n0", "n1")] and e1 == []:
+        return True
+    return False
 
 
 def projection_pairs(wire_loop, cm, it):
